@@ -10,8 +10,13 @@ pattern; a bucket is traced iff its pattern matches), see `TreeSpec`.
 
 The third clause of the property (the last `TraceAction` step equals the live action for distinct
 ranks) is about `action/trace.rs` and `Action::from_routes_rule`; it is checked differentially by
-the harness `c17` (oracle `trace-action-last`).  What this file contributes to it is the reason it
-can fail: the trace may list a route more than once (`trace_may_list_twice`).
+the harness `c17` (oracle `trace-action-last`).  What this file contributes to it is its
+precondition on the router side: the route list handed to `TraceAction::from_trace_rules` is a
+permutation of the match result – every matching rule once (`trace_lists_once`, `trace_perm_match`).
+Before the repair 0b5ee14 of `get_routes_from_traces` that was false (a rule living in several
+accepting ip buckets was listed once per bucket and its action merged twice);
+`stored_routes_may_repeat` keeps the kernel-checked witness that the traces themselves still store
+such a rule several times, i.e. that the final dedupe is what makes the clause true.
 -/
 import RioModel.Proofs.RouterTrace
 set_option linter.unusedSimpArgs false
@@ -59,17 +64,26 @@ theorem trace_memo_exact {C : Type} [DecidableEq C] (eval : C → Bool) (cs : Li
   have := traceGroup_spec eval cs memo true h
   simpa using this
 
-/-! ### Why the action trace can differ from the live action: a route can be listed twice
+/-- **Every matching rule is listed once**: the ids listed by `get_routes_from_traces` are
+duplicate-free (unconditionally – this is the final `retain` of the repaired function). -/
+theorem trace_lists_once (ts : List Trace) : ((routesOfList ts).map (·.id)).Nodup :=
+  routesOfList_nodupIds ts
 
-`IpMatcher::match_request` reports a route living in several accepting ip buckets once (the D1
-repair); `IpMatcher::trace` has no such guard, so the route list of the trace may repeat a route,
-and `TraceAction::from_trace_rules` then merges its action twice.  Full statement, its refutation
-by a kernel-checked witness, and the part that does hold (`trace_routes`: equality as sets). -/
+/-- Hence the route list the action trace starts from is a permutation of the match result. -/
+theorem trace_perm_match (E : Env) (S : Router E) (L : List Route) (h : RRepr E S L) (q : Req) :
+    (routesOfList (S.trace E q)).Perm (S.matchReq E q) := rrepr_trace_perm E S L h q
 
-/-- "the trace lists every route at most once" -/
-def TraceListsOnce : Prop :=
+/-! ### The traces still store a rule once per accepting ip range
+
+`IpMatcher::match_request` reports a route living in several accepting ip buckets once (repair
+5b0fc98); `IpMatcher::trace` traces every accepting bucket, so the `Storage` nodes of the trace
+repeat the route, and only the final dedupe of `get_routes_from_traces` (repair 0b5ee14) makes the
+listing duplicate-free.  Kernel-checked witness (the pinned regression case of corpus/C17): -/
+
+/-- "the routes stored in the traces are duplicate-free" – false -/
+def StoredRoutesNodup : Prop :=
   ∀ (E : Env) (R : List Route) (q : Req), NodupIds R →
-    (routesOfList ((Router.build E R).trace E q)).Nodup
+    (rawRoutesOfList ((Router.build E R).trace E q)).Nodup
 
 def exEnv : Env where
   alwaysAnyHost := true
@@ -90,14 +104,16 @@ def exQ : Req :=
   { scheme := none, host := none, method := none, headers := [], ip := some ⟨false, 167838211⟩,
     createdAt := none, path := "/a" }
 
-theorem trace_may_list_twice : ¬ TraceListsOnce := by
+theorem stored_routes_may_repeat : ¬ StoredRoutesNodup := by
   intro h
   have := h exEnv [exR] exQ (by simp [NodupIds, exR])
   revert this
   decide
 
-/-- Non-vacuity of `trace_routes`: a concrete represented state and a request it matches. -/
-example : (routesOfList ((Router.build exEnv [exR]).trace exEnv exQ)).map (·.id) = ["r", "r"] ∧
+/-- Non-vacuity: a concrete represented state; the traces store the rule twice, the listing and the
+match report it once. -/
+example : (rawRoutesOfList ((Router.build exEnv [exR]).trace exEnv exQ)).map (·.id) = ["r", "r"] ∧
+    (routesOfList ((Router.build exEnv [exR]).trace exEnv exQ)).map (·.id) = ["r"] ∧
     ((Router.build exEnv [exR]).matchReq exEnv exQ).map (·.id) = ["r"] := by decide
 
 end Rio.C17
